@@ -77,6 +77,12 @@ def run_case(case, ctx):
         spec.notes['n_closest_channels'] = 4
     if rng.random() < 0.2:
         spec.notes['amplitude_threshold'] = 0.4
+    if case['seed'][-1] % 3 == 1:
+        spec.notes['ks2_templates_ind'] = True       # a Kilosort-2 style templates_ind.npy lies next to the dense templates (ignored by phylib)
+    if spec.pc_features is not None and case['seed'][-1] % 4 == 2:
+        # undefined (NaN) first-component features of a few spikes on one channel: their depth is undefined as well
+        for s_ in rng.permutation(spec.pc_features.shape[0])[:3]:
+            spec.pc_features[s_, 0, int(rng.integers(0, spec.pc_features.shape[2]))] = np.nan
     if spec.pc_features is not None:
         neg = rng.permutation(spec.n_spikes)[:3]
         spec.pc_features[neg, 0, :] = -np.abs(spec.pc_features[neg, 0, :]) - 0.1   # positive part vanishes
